@@ -1,11 +1,12 @@
 SPECIFICATION Spec
 CONSTANTS MaxLen = 2
  Pad = 0
- Kinds = {"P","B","C","CS","K2","K3","KP","SN","SN3","SP","D","U","V","I0","I2","J1","IL","L","F","W","MB","MK","MT"}
+ Kinds = {"P","B","C","CS","K2","K3","KP","SN","SN3","SP","D","U","V","I0","I2","J1","IL","L","F","W","MB","MK","MT","G1","G0","GE","GX"}
  Eols = {"LF","CRLF","CR"}
  Seed = 0
  Stride = 1
  LineOff = 0
+ LineInGroupFix = TRUE
  RecordedLineDev = 0
  Emit = FALSE
 INVARIANTS SameButRecorded SameProbes
